@@ -266,6 +266,8 @@ class OneFileTwoNames(object):
         for present in ('FOO', 'FOO-MIB'):
             for how in ('imported-by-A', 'imported-by-A-other-order', 'requested', 'requested-other-order'):
                 yield {'present': present, 'how': how}
+                # the one file holds nothing but a comment: as good as absent - under both names
+                yield {'present': present, 'how': how, 'empty': 1}
 
     def run_case(self, case):
         import os
@@ -281,8 +283,11 @@ class OneFileTwoNames(object):
                     f.write(env.base_text(b))
             present = case['present']
             absent = 'FOO' if present == 'FOO-MIB' else 'FOO-MIB'
-            with open(os.path.join(root, present + '.txt'), 'w') as f:
-                f.write('%s DEFINITIONS ::= BEGIN\nIMPORTS enterprises FROM SNMPv2-SMI;\nfooRoot OBJECT IDENTIFIER ::= { enterprises 5 }\nEND\n' % present)
+            if case.get('empty'):
+                with open(os.path.join(root, present + '.txt'), 'w') as f:
+                    f.write('-- to be written\n')
+            with open(os.path.join(root, present + '.txt'), 'w' if not case.get('empty') else 'a') as f:
+                f.write('' if case.get('empty') else '%s DEFINITIONS ::= BEGIN\nIMPORTS enterprises FROM SNMPv2-SMI;\nfooRoot OBJECT IDENTIFIER ::= { enterprises 5 }\nEND\n' % present)
             names = [present, absent] if 'other-order' not in case['how'] else [absent, present]
             if case['how'].startswith('imported'):
                 with open(os.path.join(root, 'A.txt'), 'w') as f:
@@ -308,6 +313,13 @@ class OneFileTwoNames(object):
             res = comp.compile(*req, ignoreErrors=self.ignore)
             sig = '%s|one-file-two-names|%s-present|%s' % (self.prefix, present, case['how'])
             vs = []
+            if case.get('empty'):
+                # no module anywhere: both names are accounted for as missing (failed), nothing but A may be written
+                for n_ in (present, absent):
+                    if str(res.get(n_)) not in ('missing', 'failed'):
+                        vs.append(('%s|comment-only-file|name-without-a-failure-status|%s' % (sig, res.get(n_)),
+                                   '%s: %r in %r' % (n_, res.get(n_), dict((k, str(v)) for k, v in res.items()))))
+                return repr(sorted((k, str(v)) for k, v in res.items())), vs, 1
             if not self.ignore and case['how'].startswith('imported'):
                 # a module of the closure cannot be found: nothing at all is written
                 if w.written:
